@@ -123,13 +123,15 @@ class Normaliser:
                 seen = set()
 
                 def names_of(node, lvl=0):
-                    for x in ast.walk(node):
-                        if isinstance(x, ast.Name):
-                            self.captured.add(x.id)
-                            h = self.helpers.get(x.id)
-                            if h is not None and x.id not in seen and lvl < 4 and _defined_in(fn, h):
-                                seen.add(x.id)
-                                names_of(h, lvl + 1)   # the nested function reads what a one-sided helper it calls reads
+                    # what a nested function reads from the enclosing scopes: its free names (its own locals and parameters are its own business);
+                    # for a nested class, conservatively, every name in it
+                    free = _free_names(node) if isinstance(node, (ast.FunctionDef, ast.AsyncFunctionDef)) else {x.id for x in ast.walk(node) if isinstance(x, ast.Name)}
+                    for nm_ in free:
+                        self.captured.add(nm_)
+                        h = self.helpers.get(nm_)
+                        if h is not None and nm_ not in seen and lvl < 4 and _defined_in(fn, h):
+                            seen.add(nm_)
+                            names_of(h, lvl + 1)   # the nested function reads what a one-sided helper it calls reads
                 names_of(n)
         for n in ast.walk(fn):
             if isinstance(n, (ast.Assign, ast.AugAssign, ast.AnnAssign)):
@@ -327,8 +329,20 @@ class Normaliser:
             pos, t = self.test(n, benv)
             return t if pos else ("not", t)
         if isinstance(n, ast.BoolOp):
-            pos, t = self.test(n, benv)
-            return t if pos else ("not", t)
+            parts = [self.test(v, benv) for v in n.values]
+            if all((not p_) or self.boolish(t_) for p_, t_ in parts):
+                # every operand is a truth value: the connective yields a truth value, De Morgan applies
+                pos, t = _bool_form(type(n.op).__name__, parts)
+                return t if pos else ("not", t)
+            # `a or b` / `a and b` as a value: one of the operands itself is the result -- only nesting is normalised
+            flat = []
+            for v in n.values:
+                f_ = self.ex(v, benv)
+                if isinstance(f_, tuple) and len(f_) == 3 and f_[0] in ("boolv", "bool") and f_[1] == type(n.op).__name__:
+                    flat.extend(f_[2])   # (a or b) or c  ==  a or (b or c): the first truthy / falsy operand either way
+                else:
+                    flat.append(f_)
+            return ("boolv", type(n.op).__name__, tuple(flat))
         if isinstance(n, ast.IfExp):
             pos, t = self.test(n.test, benv)
             a, b = self.ex(n.body, benv), self.ex(n.orelse, benv)
@@ -2466,194 +2480,5 @@ def _renumber(form):
             if len(y) == 4 and y[0] == "cmp" and y[1] in ("Eq", "Is") and repr(y[2]) > repr(y[3]):
                 return ("cmp", y[1], y[3], y[2])
             return y
-        return x
-    return rec(form)
-
-
-def _bool_form(op, parts):
-    """(polarity, form) of `p1 op p2 op ...` for parts given as (polarity, positive form): nested connectives of the same kind are flattened; De Morgan: of a
-    connective and its dual the one with fewer negated operands is kept (`and` on a tie)"""
-    dual_of = {"And": "Or", "Or": "And"}
-    flat = []
-    for pos, t in parts:
-        if isinstance(t, tuple) and len(t) == 3 and t[0] == "bool" and ((pos and t[1] == op) or (not pos and t[1] == dual_of[op])):
-            # (a op b) op c ;  not (a dual b) op c  ==  (not a op not b) op c
-            for sub in t[2]:
-                neg = isinstance(sub, tuple) and len(sub) == 2 and sub[0] == "not"
-                core = sub[1] if neg else sub
-                flat.append(((not neg) if pos else neg, core))
-        else:
-            flat.append((pos, t))
-    n_neg = sum(1 for p_, _ in flat if not p_)
-    if 2 * n_neg > len(flat) or (2 * n_neg == len(flat) and op == "Or"):
-        return False, ("bool", dual_of[op], tuple(("not", t_) if p_ else t_ for p_, t_ in flat))
-    return True, ("bool", op, tuple(t_ if p_ else ("not", t_) for p_, t_ in flat))
-
-
-def _may_raise(e) -> bool:
-    """anything but names, constants and displays of them"""
-    return any(not isinstance(x, (ast.Name, ast.Constant, ast.Tuple, ast.List, ast.Load, ast.Store, ast.expr_context)) for x in ast.walk(e))
-
-
-def _alg_atoms(e, out):
-    """the non-arithmetic operands of an arithmetic form (sum / prod / pow), recursively"""
-    if isinstance(e, tuple) and e and e[0] == "sum":
-        for term in e[1]:
-            for atom, _p in term[1]:
-                _alg_atoms(atom, out)
-    elif isinstance(e, tuple) and e and e[0] == "prod":
-        for atom, _p in e[2]:
-            _alg_atoms(atom, out)
-    elif isinstance(e, tuple) and e and e[0] == "pow":
-        _alg_atoms(e[1], out)
-        _alg_atoms(e[2], out)
-    else:
-        out.append(e)
-    return out
-
-
-def _evaluates(form, e) -> bool:
-    """does evaluating `form` always evaluate the sub-form `e`? (conditional arms, later operands of and/or, comprehension bodies do not count; an
-    arithmetic combination counts as evaluated when all its operands are: arithmetic is re-associated freely by this normal form anyway)"""
-    if form == e:
-        return True
-    if isinstance(e, tuple) and e and e[0] in ("sum", "prod", "pow"):
-        atoms = _alg_atoms(e, [])
-        if all(not (isinstance(a_, tuple) and a_ and a_[0] in ("sum", "prod", "pow")) for a_ in atoms):
-            return all(_evaluates(form, a_) for a_ in atoms if isinstance(a_, tuple) and a_ and a_[0] not in ("n", "v", "c", "k"))
-    if not isinstance(form, tuple) or not form:
-        return False
-    h = form[0]
-    if h == "ifexp":
-        return _evaluates(form[1], e)
-    if h == "bool":
-        return bool(form[2]) and _evaluates(form[2][0], e)
-    if h == "comp":
-        gens = form[-1]
-        return bool(gens) and isinstance(gens[0], tuple) and len(gens[0]) >= 2 and _evaluates(gens[0][1], e)
-    if h == "lambda":
-        return False
-    return any(_evaluates(y, e) for y in form if isinstance(y, tuple))
-
-
-def _effect_evaluates(eff, e) -> bool:
-    k = eff[0]
-    if k in ("do", "return", "raise", "yield", "yieldfrom", "eval"):
-        return _evaluates(eff[1], e)
-    if k in ("bind", "store"):
-        return _evaluates(eff[1], e) or _evaluates(eff[2], e)
-    if k in ("if", "while"):
-        return _evaluates(eff[1], e)
-    if k == "for":
-        return _evaluates(eff[2], e)
-    return False
-
-
-def _prune_evals(effs):
-    """('eval', e) directly followed (other evals aside) by an effect that always evaluates e says nothing new"""
-    def rec(x):
-        if not isinstance(x, tuple):
-            return x
-        x = tuple(rec(y) for y in x)
-        if x and all(isinstance(y, tuple) and y and isinstance(y[0], str) for y in x) and any(y[0] == "eval" for y in x):
-            out = []
-            for i, y in enumerate(x):
-                if y[0] == "eval":
-                    j = i + 1
-                    covered = False
-                    while j < len(x):
-                        if _effect_evaluates(x[j], y[1]):
-                            covered = True
-                            break
-                        if x[j][0] != "eval":
-                            break
-                        j += 1
-                    if covered:
-                        continue
-                out.append(y)
-            x = tuple(out)
-        return x
-    return rec(effs)
-
-
-def _form_pure(x) -> bool:
-    if isinstance(x, tuple):
-        if len(x) >= 2 and x[0] == "call":
-            f = x[1]
-            if isinstance(f, tuple) and len(f) == 3 and f[0] == "." and f[2] in MUTATORS:
-                return False
-            if isinstance(f, tuple) and len(f) == 2 and f[0] == "n" and f[1] in IMPURE_FUNCS:
-                return False
-        if x and x[0] in ("yield", "yieldfrom", "await"):
-            return False
-        return all(_form_pure(y) for y in x)
-    return True
-
-
-def _drop_dead_binds(effs):
-    """a numbered variable that is bound to side-effect free values only and never read is not there (the binding was materialised because something its
-    value mentions was about to change, but nothing looked at it afterwards)"""
-    for _ in range(10):
-        reads, impure = {}, set()
-
-        def scan(x, binding=None):
-            if isinstance(x, tuple):
-                if len(x) == 3 and x[0] == "bind" and isinstance(x[1], tuple) and len(x[1]) == 2 and x[1][0] == "v" and isinstance(x[1][1], int):
-                    if not _form_pure(x[2]):
-                        impure.add(x[1][1])
-                    scan(x[2])
-                    return
-                if len(x) == 2 and x[0] == "v" and isinstance(x[1], int):
-                    reads[x[1]] = reads.get(x[1], 0) + 1
-                    return
-                for y in x:
-                    scan(y)
-        scan(effs)
-        bound = set()
-
-        def binds(x):
-            if isinstance(x, tuple):
-                if len(x) == 3 and x[0] == "bind" and isinstance(x[1], tuple) and len(x[1]) == 2 and x[1][0] == "v" and isinstance(x[1][1], int):
-                    bound.add(x[1][1])
-                for y in x:
-                    binds(y)
-        binds(effs)
-        dead = {v for v in bound if v not in reads and v not in impure}
-        if not dead:
-            return effs
-
-        def strip(x, in_try=False):
-            if isinstance(x, tuple):
-                if x and all(isinstance(y, tuple) for y in x) and any(len(y) == 3 and y[0] == "bind" for y in x if y):
-                    is_dead = lambda y: len(y) == 3 and y[0] == "bind" and isinstance(y[1], tuple) and y[1][0] == "v" and y[1][1] in dead   # noqa: E731
-                    if in_try:
-                        x = tuple(("eval", y[2]) if is_dead(y) else y for y in x)   # in a try body the evaluation stays
-                    else:
-                        x = tuple(y for y in x if not is_dead(y))
-                if len(x) == 5 and x[0] == "try":
-                    out = ("try", strip(x[1], bool(x[2])), strip(x[2], in_try), strip(x[3], in_try), strip(x[4], in_try))
-                else:
-                    out = tuple(strip(y, in_try) for y in x)
-                if out and all(isinstance(y, tuple) for y in out):
-                    empty_if = lambda y: len(y) == 4 and y[0] == "if" and y[2] == () and y[3] == ()   # noqa: E731
-                    out = tuple(("eval", y[1]) if (empty_if(y) and in_try) else y for y in out if not (empty_if(y) and not in_try))
-                return out
-            return x
-        effs = strip(effs)
-    return effs
-
-
-def _renumber(form):
-    """numbered variables are renumbered in the order of their first occurrence in the finished form (the order in which the normaliser met them depends
-    on how often it walked a shared continuation)"""
-    mapping = {}
-
-    def rec(x):
-        if isinstance(x, tuple):
-            if len(x) == 2 and x[0] == "v" and isinstance(x[1], int):
-                if x[1] not in mapping:
-                    mapping[x[1]] = len(mapping)
-                return ("v", mapping[x[1]])
-            return tuple(rec(y) for y in x)
         return x
     return rec(form)
